@@ -536,7 +536,31 @@ def return_origins_(prog, fn):
     return return_origins(prog, fn)
 
 
+def rule_unbuffered(ctx, R="C17/unbuffered"):
+    """`the bytes the target holds` at the time of the read: nothing between the kernel and the caller may remember bytes of an
+    earlier read — the reader's state is the pid and the strategy, the file strategy keeps the bare File and reads positionally."""
+    prog = ctx.prog
+    n = 0
+    for name, a in prog.adts.items():
+        if name in ("linux::mem_reader::MemReader", "linux::mem_reader::Style"):
+            for v in a.get("variants", []):
+                for f in v.get("fields", []):
+                    n += 1
+                    ty = f["ty"]
+                    bad = [w for w in ("BufReader", "Vec<", "Box<[", "HashMap", "BTreeMap", "Cell<", "Cursor", "Mmap") if w in ty]
+                    ctx.check(not bad, R, ("state", name.split("::")[-1], v["name"], f["name"]), None, "%s::%s.%s: %s holds no bytes of the target" % (name.split("::")[-1], v["name"], f["name"], ty),
+                              "%s::%s.%s is a %s: bytes of an earlier read can be served again after the target changed them" % (name.split("::")[-1], v["name"], f["name"], ty))
+    ctx.floor(R, "fields of the reader state", n, 6)
+    fb = ctx.body(R, MR + "::file")
+    if fb is not None:
+        pos = [bi for bi, t in fb.calls(lambda c: (c.short or "").split("::")[-1] in ("read_exact_at", "read_at"))]
+        seq = [bi for bi, t in fb.calls(lambda c: (c.short or "").split("::")[-1] in ("read", "read_exact", "seek", "seek_relative", "stream_position", "read_to_end", "fill_buf"))]
+        ctx.check(bool(pos) and not seq, R, "positional-read", fb.where(pos[0] if pos else 0), "the file strategy reads positionally (pread) from the bare file",
+                  "the file strategy reads through a stream position (%s): state of an earlier read influences this one" % sorted({(CalleeView(fb.term(x)["callee"]).short or "").split("::")[-1] for x in seq}))
+
+
 def run(ctx):
+    rule_unbuffered(ctx)
     rule_reader_identity(ctx)
     rule_count_from_strategy(ctx)
     rule_peek_errno(ctx)
